@@ -160,4 +160,49 @@ fn c13_decimal_text__format_then_parse_is_identity__nat() {
     assert!(cases > 20_000);
 }
 
+// C13 (bounded stand-in, native): INTERVAL text round trip.  Every interval of a small family (months in {0, 1, 13, 25},
+// days in {0, 1, 2, 40}, time of day in {0, 1 s, 5 ms, 50 ms, 500 ms, 1 h 1 min 1 s, 23 h 59 min 59.999 s}) is formatted
+// by IntervalFormatter (CAST(interval AS TEXT)) and parsed back by IntervalParser (CAST(text AS INTERVAL)); the result
+// must be the interval we started from.  Failures are collected and reported together (known finding, see
+// known_findings.json): the formatter's output language ("1 year 2 mons 3 days 01:01:01.5") is not the parser's input
+// language ("<number> <unit>" pairs), and milliseconds are written without zero padding.
+#[test]
+fn c13_interval_text__format_then_parse_is_identity__nat() {
+    use crate::arrays::scalar::interval::Interval;
+    use crate::functions::cast::format::{Formatter as _, IntervalFormatter};
+    let ms = Interval::NANOSECONDS_IN_MILLISECOND;
+    let s = Interval::NANOSECONDS_IN_SECOND;
+    let times = [0, s, 5 * ms, 50 * ms, 500 * ms, 3600 * s + 60 * s + s, 23 * 3600 * s + 59 * 60 * s + 59 * s + 999 * ms];
+    let mut total = 0usize;
+    let mut bad: Vec<String> = Vec::new();
+    let mut texts = std::collections::BTreeMap::<String, Interval>::new();
+    for months in [0, 1, 13, 25] {
+        for days in [0, 1, 2, 40] {
+            for nanos in times {
+                let v = Interval { months, days, nanos };
+                let mut text = String::new();
+                IntervalFormatter.write(&v, &mut text).unwrap();
+                total += 1;
+                // two different intervals must not share a text
+                if let Some(other) = texts.insert(text.clone(), v) {
+                    if other != v {
+                        bad.push(format!("{v:?} and {other:?} are both written as '{text}'"));
+                    }
+                }
+                let back = IntervalParser::default().parse(&text);
+                if back != Some(v) {
+                    bad.push(format!("{v:?} is written as '{text}', which parses back to {back:?}"));
+                }
+            }
+        }
+    }
+    assert!(total == 112);
+    if !bad.is_empty() {
+        panic!("KNOWN-SHAPE INTERVAL text round trip: {} of {} intervals do not survive CAST(CAST(i AS TEXT) AS INTERVAL); first: {}", bad.len(), total, bad[0]);
+    }
+}
+
+//@fn functions/cast/format.rs impl Formatter for IntervalFormatter :: write
+//@fn functions/cast/parse.rs impl Parser for IntervalParser :: parse
+
 include!("/verif/build/kani-gen/cast_parse.playback.rs");
